@@ -129,7 +129,7 @@ pub fn uninstall_hooks() {
 // ------------------------------------------------------------------------------------------------------------------
 
 pub fn b64(bytes: &[u8]) -> String {
-  identity_jose::jwu::encode_b64(bytes)
+  crate::core::b64::encode(bytes)
 }
 
 /// RFC 7638 thumbprint of an OKP key, computed by the harness.
